@@ -297,6 +297,22 @@ Qed.
 Theorem copy_all_frame h l : ext (length h) h (fst (copy_all h l)).
 Proof. fstart h. apply copy_all_step. exact X0. Qed.
 
+Theorem tweak_priv_writes_frame h key result : ext (length h) h (fst (tweak_priv_writes h key result)).
+Proof.
+  fstart h. unfold tweak_priv_writes.
+  destruct (copy_bytes_step (length h) h h key X0) as [X1 F1].
+  destruct (copy_bytes h key) as [h1 work]. cbn [fst snd] in *.
+  repeat fstep2. cbn [fst]. assumption.
+Qed.
+
+Example tweak_priv_prefix_writes_callers_key :
+  let h : heap := [[x01; x02; x03]] in
+  let key := mk_slice 0 0 3 3 in
+  arr (fst (tweak_priv_writes_prefix h key [x0a; x0b; x0c])) 0 = [x0a; x0b; x0c] /\
+  arr (fst (tweak_priv_writes h key [x0a; x0b; x0c])) 0 = [x01; x02; x03] /\
+  rd (fst (tweak_priv_writes h key [x0a; x0b; x0c])) (snd (tweak_priv_writes h key [x0a; x0b; x0c])) = [x0a; x0b; x0c].
+Proof. repeat split; reflexivity. Qed.
+
 (* copyBytes: the copy reads the same bytes, lives alone in a brand-new array *)
 Lemma copy_bytes_spec h s : wf_slice h s ->
   rd (fst (copy_bytes h s)) (snd (copy_bytes h s)) = rd h s /\
@@ -552,7 +568,8 @@ Inductive call :=
   | CBlech32 (prefix : bytes) (v : byte) (pk prog : slice)
   | CTapScriptSigs (sigs : list (slice * slice)) | CTapLeafScripts (ls : list (slice * byte))
   | CReverse (buf : slice) | CValueFromBytes (val : slice) | CAssetHashFromBytes (buf : slice) | CTxIDFromBytes (buf : slice)
-  | CSerVector (v : list slice) | CCopy (l : list slice).
+  | CSerVector (v : list slice) | CCopy (l : list slice)
+  | CTweakPriv (key : slice) (result : bytes).
 
 Definition run_call (g : policy) (h : heap) (c : call) : heap :=
   match c with
@@ -572,6 +589,7 @@ Definition run_call (g : policy) (h : heap) (c : call) : heap :=
   | CTxIDFromBytes b => fst (txid_from_bytes h b)
   | CSerVector v => fst (ser_vector g h v)
   | CCopy l => fst (copy_all h l)
+  | CTweakPriv k r => fst (tweak_priv_writes h k r)
   end.
 
 Theorem run_call_frame g h c : ext (length h) h (run_call g h c).
@@ -583,6 +601,7 @@ Proof.
   - apply tap_leaf_scripts_frame. - apply reverse_bytes_frame. - apply value_from_bytes_frame.
   - apply asset_hash_from_bytes_frame. - apply txid_from_bytes_frame. - apply ser_vector_frame.
   - apply copy_all_frame.
+  - apply tweak_priv_writes_frame.
 Qed.
 
 Lemma run_calls_frame g cs : forall h, ext (length h) h (fold_left (run_call g) cs h).
